@@ -209,7 +209,7 @@ Section Walk.
     else match alookup n sdir with
          | Some (File c _) => copy_file cf (o_dry_run o) n c d
          | Some (Dir es) =>
-             if o_recursive o then copy_tree cf (excluded o) (o_dry_run o) n (Dir es) d else (d, None)
+             if o_recursive o then copy_tree cf (tree_excl cf o) (o_dry_run o) n (Dir es) d else (d, None)
          | None => (d, None)
          end.
 
@@ -235,12 +235,17 @@ Section Walk.
       end
     else (d, None).
 
+  Definition funny_err (o : opts) (deep : bool) (sdir ddir : dir) : bool :=
+    fix_funny cf && existsb (fun n => negb (excluded o n)) (of_cls deep sdir ddir Funny).
+
   Lemma sync_ws_S : forall fuel o deep sdir ddir subdir,
     sync_ws frepr cf (S fuel) o deep sdir ddir subdir =
     match run_steps (step1 o sdir) (of_cls deep sdir ddir LeftOnly) ddir with
     | (d1, None) =>
         match run_steps (step2 o sdir subdir) (of_cls deep sdir ddir Diff) d1 with
-        | (d2, None) => run_steps (step3 (sync_ws frepr cf fuel o deep) o sdir subdir) (of_cls deep sdir ddir SubDir) d2
+        | (d2, None) =>
+            if funny_err o deep sdir ddir then (d2, Some EFileSyncConflict)
+            else run_steps (step3 (sync_ws frepr cf fuel (set_top o false) deep) o sdir subdir) (of_cls deep sdir ddir SubDir) d2
         | r => r
         end
     | r => r
@@ -326,13 +331,13 @@ Section Walk2.
       destruct (alookup n d) as [[c2 m2|es]|]; try reflexivity.
       destruct (verdict s (join subdir n) m m2); [|reflexivity].
       rewrite Hdry. apply CF. }
-    assert (S3 : forall n d, fst (step3 (sync_ws frepr cf fuel o deep) o sdir subdir n d) = d).
+    assert (S3 : forall n d, fst (step3 (sync_ws frepr cf fuel (set_top o false) deep) o sdir subdir n d) = d).
     { intros n d. unfold step3. destruct (o_recursive o) eqn:Er; [|reflexivity].
       destruct (alookup n sdir) as [[c m|ses]|]; try reflexivity.
       destruct (alookup n d) as [[c2 m2|des]|] eqn:El; try reflexivity.
-      assert (H4' : fix_F4 cf = true \/ o_recursive o = false) by (destruct H4; [left; assumption|discriminate]).
-      specialize (IH o deep ses des (join subdir n) Hdry H4').
-      destruct (sync_ws frepr cf fuel o deep ses des (join subdir n)) as [des' e]. simpl in *. subst des'.
+      assert (H4' : fix_F4 cf = true \/ o_recursive (set_top o false) = false) by (destruct H4; [left; assumption|discriminate]).
+      specialize (IH (set_top o false) deep ses des (join subdir n) Hdry H4').
+      destruct (sync_ws frepr cf fuel (set_top o false) deep ses des (join subdir n)) as [des' e]. simpl in *. subst des'.
       apply aset_same. assumption. }
     destruct (run_steps (step1 cf o sdir) (of_cls frepr cf deep sdir ddir LeftOnly) ddir) as [d1 e1] eqn:E1.
     assert (D1 : d1 = ddir).
@@ -344,6 +349,7 @@ Section Walk2.
     { replace d2 with (fst (run_steps (step2 cf o sdir subdir) (of_cls frepr cf deep sdir ddir Diff) d1))
         by (rewrite E2; reflexivity). apply run_steps_id. intros; apply S2. }
     destruct e2; [simpl; congruence|].
+    destruct (funny_err frepr cf o deep sdir ddir); [simpl; congruence|].
     rewrite run_steps_id by (intros; apply S3). congruence.
   Qed.
 
@@ -368,7 +374,7 @@ Section Walk2.
       unfold step2. destruct Hk as [Hk|[Hk _]]; [|rewrite Hk; reflexivity].
       destruct (excluded o n); [reflexivity|]. rewrite Hk.
       destruct (o_strategy o); reflexivity. }
-    assert (S3 : forall n d, P d -> P (fst (step3 (sync_ws frepr cf fuel o deep) o sdir subdir n d))).
+    assert (S3 : forall n d, P d -> P (fst (step3 (sync_ws frepr cf fuel (set_top o false) deep) o sdir subdir n d))).
     { intros n d Hd. unfold P in *. rewrite <- Hd.
       destruct (str_eq_dec k n) as [->|Hne]; [|apply step3_frame; assumption].
       unfold step3. destruct (o_recursive o); [|reflexivity].
@@ -385,6 +391,7 @@ Section Walk2.
     { replace d2 with (fst (run_steps (step2 cf o sdir subdir) (of_cls frepr cf deep sdir ddir Diff) d1))
         by (rewrite E2; reflexivity). apply run_steps_preserve; assumption. }
     destruct e2; [exact P2|].
+    destruct (funny_err frepr cf o deep sdir ddir); [exact P2|].
     apply run_steps_preserve; assumption.
   Qed.
 
@@ -407,7 +414,7 @@ Section Walk2.
       unfold step2. destruct Hk as [Hk|[Hk _]]; [|rewrite Hk; reflexivity].
       destruct (excluded o n); [reflexivity|]. rewrite Hk.
       destruct (o_strategy o); reflexivity. }
-    assert (S3 : forall n d, P d -> P (fst (step3 (sync_ws frepr cf fuel o deep) o sdir subdir n d))).
+    assert (S3 : forall n d, P d -> P (fst (step3 (sync_ws frepr cf fuel (set_top o false) deep) o sdir subdir n d))).
     { intros n d Hd. unfold P in *. rewrite <- Hd.
       destruct (str_eq_dec k n) as [->|Hne]; [|apply step3_frame; assumption].
       unfold step3. destruct (o_recursive o); [|reflexivity].
@@ -424,6 +431,7 @@ Section Walk2.
     { replace d2 with (fst (run_steps (step2 cf o sdir subdir) (of_cls frepr cf deep sdir ddir Diff) d1))
         by (rewrite E2; reflexivity). apply run_steps_preserve; assumption. }
     destruct e2; [exact P2|].
+    destruct (funny_err frepr cf o deep sdir ddir); [exact P2|].
     apply run_steps_preserve; assumption.
   Qed.
 End Walk2.
@@ -486,7 +494,7 @@ Section Walk3.
     match classify frepr deep n sdir ddir with
     | LeftOnly => step1 cf o sdir n ddir
     | Diff => step2 cf o sdir subdir n ddir
-    | SubDir => step3 (sync_ws frepr cf fuel o deep) o sdir subdir n ddir
+    | SubDir => step3 (sync_ws frepr cf fuel (set_top o false) deep) o sdir subdir n ddir
     | _ => (ddir, None)
     end.
 
@@ -504,11 +512,12 @@ Section Walk3.
     set (L1 := of_cls frepr cf deep sdir ddir LeftOnly) in *.
     set (L2 := of_cls frepr cf deep sdir ddir Diff) in *.
     set (L3 := of_cls frepr cf deep sdir ddir SubDir) in *.
-    set (rec := sync_ws frepr cf fuel o deep) in *.
+    set (rec := sync_ws frepr cf fuel (set_top o false) deep) in *.
     destruct (run_steps (step1 cf o sdir) L1 ddir) as [d1 e1] eqn:E1.
     destruct e1 as [x|]; [discriminate|].
     destruct (run_steps (step2 cf o sdir subdir) L2 d1) as [d2 e2] eqn:E2.
     destruct e2 as [x|]; [discriminate|].
+    destruct (funny_err frepr cf o deep sdir ddir) eqn:Efun; [discriminate|].
     assert (N1 : NoDup (map (fun x : str => x) L1)) by (rewrite map_id; apply of_cls_NoDup; assumption).
     assert (N2 : NoDup (map (fun x : str => x) L2)) by (rewrite map_id; apply of_cls_NoDup; assumption).
     assert (N3 : NoDup (map (fun x : str => x) L3)) by (rewrite map_id; apply of_cls_NoDup; assumption).
@@ -590,7 +599,7 @@ Section Walk4.
     set (L1 := of_cls frepr cf deep sdir ddir LeftOnly) in *.
     set (L2 := of_cls frepr cf deep sdir ddir Diff) in *.
     set (L3 := of_cls frepr cf deep sdir ddir SubDir) in *.
-    set (rec := sync_ws frepr cf fuel o deep) in *.
+    set (rec := sync_ws frepr cf fuel (set_top o false) deep) in *.
     assert (N1 : NoDup L1) by (apply of_cls_NoDup; assumption).
     assert (N2 : NoDup L2) by (apply of_cls_NoDup; assumption).
     assert (N3 : NoDup L3) by (apply of_cls_NoDup; assumption).
@@ -613,6 +622,7 @@ Section Walk4.
       right. split; [assumption|]. unfold class_step. rewrite Hc, A2.
       apply (step2_local cf o sdir subdir n d1 ddir Hd). }
     destruct e2 as [x|]; [exact B2|].
+    destruct (funny_err frepr cf o deep sdir ddir); [exact B2|].
     pose proof (run_steps_at_or _ (step3_frame rec o sdir subdir) (step3_local rec o sdir subdir) L3 d2 n N3) as A3.
     destruct A3 as [A3|[Hin A3]]; [rewrite A3; exact B2|].
     apply of_cls_In in Hin. destruct Hin as [Hin Hc].
@@ -813,6 +823,13 @@ End Walk5.
 Fixpoint rel (subdir : str) (p : path) : str :=
   match p with [] => subdir | n :: p' => rel (join subdir n) p' end.
 
+(* the options as the walk sees them at path p: below the top level the job's own names are ordinary names *)
+Definition at_path (o : opts) (p : path) : opts :=
+  match p with [_] => o | _ => set_top o false end.
+
+Lemma at_path_cons : forall o k p, at_path (set_top o false) (k :: p) = set_top o false.
+Proof. intros. destruct p; reflexivity. Qed.
+
 Section Walk6.
   Variable frepr : fl -> str.
   Variable cf : cfg.
@@ -841,7 +858,7 @@ Section Walk6.
     sync_ws fuel o deep sdir ddir subdir = (d', None) ->
     lookup_path p (Dir sdir) = Some (File c1 m1) -> lookup_path p (Dir ddir) = Some (File c2 m2) ->
     (o_recursive o = true \/ length p = 1%nat) ->
-    forallb (fun k => negb (ignored cf k)) p = true -> excluded o (last p []) = false ->
+    forallb (fun k => negb (ignored cf k)) p = true -> excluded (at_path o p) (last p []) = false ->
     file_same frepr deep c1 m1 c2 m2 = false ->
     lookup_path p (Dir d') = Some (if verdict s (rel subdir p) m1 m2 then File c1 NOW else File c2 m2).
   Proof.
@@ -867,9 +884,10 @@ Section Walk6.
       rewrite (step3_SubDir _ _ _ _ _ _ ses des Es Ed) in *.
       assert (Hrec : o_recursive o = true) by (destruct Hreach as [?|Hl]; [assumption|simpl in Hl; discriminate]).
       rewrite Hrec in *. simpl in H2. simpl. rewrite alookup_aset_same.
-      destruct (sync_ws fuel o deep ses des (join subdir n)) as [des' e'] eqn:Er. simpl in H2. subst e'. simpl.
-      apply (IH fuel o deep ses des (join subdir n) des' s c1 m1 c2 m2); auto.
-      eapply Hsub; eauto.
+      destruct (sync_ws fuel (set_top o false) deep ses des (join subdir n)) as [des' e'] eqn:Er. simpl in H2. subst e'. simpl.
+      apply (IH fuel (set_top o false) deep ses des (join subdir n) des' s c1 m1 c2 m2); auto.
+      + eapply Hsub; eauto.
+      + rewrite at_path_cons. exact Hex.
   Qed.
 
   (* C14: without a strategy a differing, non-excluded file at the top level makes the real run raise
@@ -930,6 +948,13 @@ Section Walk7.
   Notation excluded := (excluded cf).
   Notation sync_ws := (sync_ws frepr cf).
 
+  (* below the top level the walk skips exactly what copytree's ignore function skips *)
+  Lemma excluded_below : forall o n, excluded (set_top o false) n = tree_excl cf o n.
+  Proof.
+    intros. unfold Sync.excluded, tree_excl. destruct (fix_own cf); [|reflexivity].
+    cbn [o_top set_top o_exclude]. rewrite orb_false_r. reflexivity.
+  Qed.
+
   Lemma lookup_snoc_new : forall n (x : node) d p, alookup n d = None ->
     lookup_path (n :: p) (Dir (d ++ [(n, x)])) = lookup_path p x.
   Proof.
@@ -943,7 +968,7 @@ Section Walk7.
     forall p fuel o deep sdir ddir subdir,
     fix_excl cf = true \/ o_recursive o = false ->
     wf_node (Dir sdir) = true -> o_dry_run o = false ->
-    p <> [] -> excluded o (last p []) = true ->
+    p <> [] -> excluded (at_path o p) (last p []) = true ->
     (forall es, lookup_path p (Dir ddir) <> Some (Dir es)) ->
     lookup_path p (Dir (fst (sync_ws fuel o deep sdir ddir subdir))) = lookup_path p (Dir ddir).
   Proof.
@@ -967,7 +992,8 @@ Section Walk7.
           destruct Hfx as [Hfx|Hfx]; [|discriminate].
           unfold copy_tree. rewrite Hdry, Hfx. cbn [fst].
           rewrite alookup_app, Ec. cbn [alookup]. rewrite str_eqb_refl.
-          rewrite lookup_path_touch, lookup_path_prune_excl; [reflexivity|discriminate|exact Hex].
+          rewrite lookup_path_touch, lookup_path_prune_excl; [reflexivity|discriminate|].
+          rewrite <- excluded_below. exact Hex.
       + (* Diff: files on both sides, nothing below them *)
         apply classify_Diff in Ec. destruct Ec as (c1 & m1 & c2 & m2 & E1 & E2 & _).
         unfold step2. rewrite E1, E2.
@@ -983,59 +1009,99 @@ Section Walk7.
         rewrite (step3_SubDir _ _ _ _ _ _ ses des E1 E2). rewrite E2 in *.
         destruct (o_recursive o) eqn:Er; simpl; [|rewrite E2; reflexivity].
         assert (Hfx' : fix_excl cf = true \/ o_recursive o = false) by (destruct Hfx; [left; assumption|discriminate]).
-        rewrite alookup_aset_same. apply IH; auto; [eapply Hsub; eauto|discriminate].
+        rewrite alookup_aset_same. apply IH; auto; [eapply Hsub; eauto|discriminate|rewrite at_path_cons; exact Hex].
   Qed.
 
-  (* no path component is excluded *)
-  Definition clear_path (o : opts) (p : path) : bool := forallb (fun k => negb (excluded o k)) p.
+  (* no path component is excluded: the first with the options of the level the walk starts at, the others
+     with those below the top level *)
+  Definition clear_path (o : opts) (p : path) : bool :=
+    match p with
+    | [] => true
+    | n :: q => negb (excluded o n) && forallb (fun k => negb (excluded (set_top o false) k)) q
+    end.
+
+  Lemma sync_ws_ok_no_funny : forall fuel o deep sdir ddir subdir d',
+    sync_ws (S fuel) o deep sdir ddir subdir = (d', None) -> funny_err frepr cf o deep sdir ddir = false.
+  Proof.
+    intros fuel o deep sdir ddir subdir d' H. rewrite sync_ws_S in H.
+    destruct (run_steps (step1 cf o sdir) (of_cls frepr cf deep sdir ddir LeftOnly) ddir) as [d1 [x|]]; [discriminate|].
+    destruct (run_steps (step2 cf o sdir subdir) (of_cls frepr cf deep sdir ddir Diff) d1) as [d2 [x|]]; [discriminate|].
+    destruct (funny_err frepr cf o deep sdir ddir); [discriminate|reflexivity].
+  Qed.
+
+  (* a successful walk met no kind clash that was not excluded *)
+  Lemma ok_funny_excluded : forall fuel o deep sdir ddir subdir d' n,
+    fix_funny cf = true -> sync_ws (S fuel) o deep sdir ddir subdir = (d', None) ->
+    In n (names cf sdir) -> classify frepr deep n sdir ddir = Funny -> excluded o n = true.
+  Proof.
+    intros fuel o deep sdir ddir subdir d' n Hf Hrun Hin Hc.
+    pose proof (sync_ws_ok_no_funny _ _ _ _ _ _ _ Hrun) as Hno. unfold funny_err in Hno. rewrite Hf in Hno. simpl in Hno.
+    destruct (excluded o n) eqn:Ex; [reflexivity|].
+    assert (Hex : existsb (fun n0 => negb (excluded o n0)) (of_cls frepr cf deep sdir ddir Funny) = true).
+    { apply existsb_exists. exists n. split; [apply of_cls_In; auto|rewrite Ex; reflexivity]. }
+    congruence.
+  Qed.
 
   (* C13: after a successful real run every reachable source file, on a path without excluded or
-     ignored names, that was absent from the destination is present with the same content *)
+     ignored names, that was absent from the destination — nothing there, or something of the other kind at
+     the path or on the way to it — is present with the same content (since 4239e5d a kind clash is a
+     FileSyncConflict, so a successful run met none) *)
   Theorem ws_superset : forall p fuel o deep sdir ddir subdir d' c m,
+    fix_funny cf = true ->
     wf_node (Dir sdir) = true -> o_dry_run o = false ->
     sync_ws fuel o deep sdir ddir subdir = (d', None) ->
-    lookup_path p (Dir sdir) = Some (File c m) -> absent_in p ddir = true ->
+    lookup_path p (Dir sdir) = Some (File c m) -> absent_in false p ddir = true ->
     (o_recursive o = true \/ length p = 1%nat) ->
     forallb (fun k => negb (ignored cf k)) p = true ->
     clear_path o p = true ->
     lookup_path p (Dir d') = Some (File c NOW).
   Proof.
     induction p as [|n p IH]; intros fuel o deep sdir ddir subdir d' c m
-                                      Hwf Hdry Hrun Hps Habs Hreach Hign Hclr; [simpl in Hps; discriminate|].
+                                      Hfun Hwf Hdry Hrun Hps Habs Hreach Hign Hclr; [simpl in Hps; discriminate|].
     destruct (wf_dir_inv _ Hwf) as [Hnd Hsub].
     destruct fuel as [|fuel]; [simpl in Hrun; discriminate|].
     simpl in Hign. apply andb_true_iff in Hign. destruct Hign as [Hn Hign]. apply negb_true_iff in Hn.
-    unfold clear_path in Hclr. simpl in Hclr. apply andb_true_iff in Hclr. destruct Hclr as [Hcn Hclr].
+    unfold clear_path in Hclr. apply andb_true_iff in Hclr. destruct Hclr as [Hcn Hclr].
     apply negb_true_iff in Hcn.
     rewrite !lookup_path_cons in *.
     destruct (alookup n sdir) as [xs|] eqn:Es; [|discriminate].
-    destruct (sync_ws_at frepr cf fuel o deep sdir ddir subdir d' n Hnd (in_names _ _ _ _ Es Hn) Hrun) as [H1 H2].
-    rewrite H1. unfold class_step in *. simpl in Habs.
-    destruct (alookup n ddir) as [[c2 m2|des]|] eqn:Ed; [discriminate| |].
-    - (* common directory *)
-      destruct p as [|k p]; [simpl in Habs; discriminate|].
-      destruct (lookup_below _ _ _ _ Hps) as [ses ->].
-      rewrite (classify_dirs frepr deep n sdir ddir ses des Es Ed) in *.
-      rewrite (step3_SubDir _ _ _ _ _ _ ses des Es Ed) in *.
-      assert (Hrec : o_recursive o = true) by (destruct Hreach as [?|Hl]; [assumption|simpl in Hl; discriminate]).
-      rewrite Hrec in *. cbn [fst snd] in *. rewrite alookup_aset_same.
-      destruct (sync_ws fuel o deep ses des (join subdir n)) as [des' e'] eqn:Er. cbn [fst snd] in *. subst e'.
-      apply (IH fuel o deep ses des (join subdir n) des' c m); auto.
-      eapply Hsub; eauto.
-    - (* left only *)
-      assert (Ec : classify frepr deep n sdir ddir = LeftOnly).
-      { unfold classify. rewrite Ed. destruct (alookup n sdir) as [[? ?|?]|]; reflexivity. }
-      rewrite Ec in *. unfold step1 in *. rewrite Hcn, Es in *.
-      destruct xs as [c1 m1|ses].
-      + destruct p as [|k p]; [|simpl in Hps; discriminate]. simpl in Hps. inversion Hps; subst.
+    pose proof (in_names _ _ _ _ Es Hn) as Hin.
+    destruct (sync_ws_at frepr cf fuel o deep sdir ddir subdir d' n Hnd Hin Hrun) as [H1 H2].
+    rewrite H1. unfold class_step in *.
+    assert (NoFunny : classify frepr deep n sdir ddir <> Funny).
+    { intro Hc. pose proof (ok_funny_excluded _ _ _ _ _ _ _ n Hfun Hrun Hin Hc). congruence. }
+    destruct p as [|k p].
+    - (* the file itself *)
+      simpl in Hps. inversion Hps; subst xs. simpl in Habs.
+      destruct (alookup n ddir) as [[c2 m2|des]|] eqn:Ed; [discriminate| |].
+      + exfalso. apply NoFunny. unfold classify. rewrite Es, Ed. reflexivity.
+      + assert (Ec : classify frepr deep n sdir ddir = LeftOnly) by (unfold classify; rewrite Es, Ed; reflexivity).
+        rewrite Ec in *. unfold step1 in *. rewrite Hcn, Es in *.
         unfold copy_file. rewrite Hdry. cbn [fst]. rewrite alookup_aset_same. reflexivity.
-      + destruct p as [|k p]; [simpl in Hps; discriminate|].
-        assert (Hrec : o_recursive o = true) by (destruct Hreach as [?|Hl]; [assumption|simpl in Hl; discriminate]).
+    - destruct (lookup_below _ _ _ _ Hps) as [ses ->].
+      assert (Hrec : o_recursive o = true) by (destruct Hreach as [?|Hl]; [assumption|simpl in Hl; discriminate]).
+      change (absent_in false (n :: k :: p) ddir) with
+        (match alookup n ddir with
+         | None => true | Some (Dir d0) => absent_in false (k :: p) d0 | Some (File _ _) => true end) in Habs.
+      destruct (alookup n ddir) as [[c2 m2|des]|] eqn:Ed.
+      + exfalso. apply NoFunny. unfold classify. rewrite Es, Ed. reflexivity.
+      + (* common directory *)
+        rewrite (classify_dirs frepr deep n sdir ddir ses des Es Ed) in *.
+        rewrite (step3_SubDir _ _ _ _ _ _ ses des Es Ed) in *.
+        rewrite Hrec in *. cbn [fst snd] in *. rewrite alookup_aset_same.
+        destruct (sync_ws fuel (set_top o false) deep ses des (join subdir n)) as [des' e'] eqn:Er. cbn [fst snd] in *. subst e'.
+        apply (IH fuel (set_top o false) deep ses des (join subdir n) des' c m); auto;
+          try (eapply Hsub; eauto); try (unfold clear_path; simpl in Hclr; exact Hclr).
+      + (* left only: copied as a whole *)
+        assert (Ec : classify frepr deep n sdir ddir = LeftOnly) by (unfold classify; rewrite Es, Ed; reflexivity).
+        rewrite Ec in *. unfold step1 in *. rewrite Hcn, Es in *.
         rewrite Hrec in *. unfold copy_tree. rewrite Hdry. cbn [fst].
         rewrite alookup_app, Ed. cbn [alookup]. rewrite str_eqb_refl.
         rewrite lookup_path_touch.
         destruct (fix_excl cf).
-        * rewrite lookup_path_prune_keep by exact Hclr. rewrite Hps. reflexivity.
+        * rewrite lookup_path_prune_keep; [rewrite Hps; reflexivity|].
+          rewrite forallb_forall in Hclr. apply forallb_forall. intros x Hx.
+          rewrite <- excluded_below. apply Hclr. exact Hx.
         * rewrite Hps. reflexivity.
   Qed.
 End Walk7.
